@@ -38,8 +38,9 @@ type interp struct {
 	stamp       int
 	observes    []observation
 	chanCaps    map[string]int
-	ttlSeq      int      // fresh names for the unknown second phases of TTL deadlines (Badger model)
-	logGates    []string // substrings of structured log messages that are scheduling points
+	tkSplits    [][]*sym.Term // region split keys of the TiKV model (ascending)
+	ttlSeq      int           // fresh names for the unknown second phases of TTL deadlines (Badger model)
+	logGates    []string      // substrings of structured log messages that are scheduling points
 	funcsSeen   map[*ssa.Function]int
 	stubsSeen   map[string]int
 	opaques     map[string]*opaque
